@@ -148,8 +148,14 @@ def run_impl(ctx, weighted, ops, law_depth=None, final_law=None):
                     if bad:
                         law_fail.append([[list(k), float(p), float(s), float(cut)] for k, p, s, cut in bad])
                 tr = rngmod.TapeRandom(rng=ctx.rng)
-                with rngmod.scripted(tr):
-                    c = ld.choose_random()
+                try:
+                    with rngmod.scripted(tr), time_limit(20):
+                        c = ld.choose_random()
+                except _Stuck:
+                    # ~millions of rejected rounds for weights of ordinary size: the selection does not return in practice
+                    pred_fail.append("choose_random did not return within 20 s (%d rounds rejected so far) on candidates with weights %s"
+                                     % (sum(1 for kind, _ in tr.log if kind == "c"), sorted(str(fr(ld.weight[x])) for x in ld.items)[:6]))
+                    break
                 # one round = a `choice` call and, when weighted, the `random()` call that follows it (parsed by kind:
                 # an implementation that consumes draws differently shows up as a disagreement, not as a harness crash)
                 draws = []
@@ -286,9 +292,13 @@ def needle(ctx):
         sim.random = _r.Random(seed)
         picks = {}
         try:
-            for _ in range(150):
-                c = ld.choose_random()
-                picks[c] = picks.get(c, 0) + 1
+            with time_limit(60):
+                for _ in range(150):
+                    c = ld.choose_random()
+                    picks[c] = picks.get(c, 0) + 1
+        except _Stuck:
+            ctx.violation("choose_random did not return within 60 s for 150 selections on a set with %d zero-weight candidates" % K, rep)
+            continue
         except Exception as e:
             ctx.violation("choose_random raised %s on a set with %d zero-weight candidates" % (type(e).__name__, K), rep)
             continue
@@ -448,6 +458,37 @@ def marathon(ctx):
             ctx.violation("_ListDict_ long history: " + bad, dict(rep, failure=bad))
 
 
+class _Stuck(Exception):
+    pass
+
+
+_STUCK = [0]
+
+
+class time_limit:
+    """raise _Stuck in the main thread when the block runs longer than `seconds` (a sampler that needs ~1e15 rejection rounds
+    never returns: that is reported as a violation instead of hanging the check)"""
+    def __init__(self, seconds):
+        self.seconds = seconds
+
+    def __enter__(self):
+        import signal
+
+        def handler(signum, frame):
+            _STUCK[0] += 1
+            raise _Stuck()
+        self.old = signal.signal(signal.SIGALRM, handler)
+        # after two reports the budget per block drops to 2 s: a sampler that is stuck is stuck in hundreds of cases, and
+        # the check must still end in minutes
+        signal.setitimer(signal.ITIMER_REAL, self.seconds if _STUCK[0] < 2 else 2)
+
+    def __exit__(self, *a):
+        import signal
+        signal.setitimer(signal.ITIMER_REAL, 0)
+        signal.signal(signal.SIGALRM, self.old)
+        return False
+
+
 def absorbed(ctx):
     """weights spanning 15+ orders of magnitude that are NOT powers of two: the running total absorbs the light weights
     while a heavy candidate is present and carries a rounding residue after it has gone (the sampler must not rely on the
@@ -491,9 +532,14 @@ def absorbed(ctx):
         sim.random = _r.Random(seed)
         picks = {}
         try:
-            for _ in range(120):
-                c = ld.choose_random()
-                picks[c] = picks.get(c, 0) + 1
+            with time_limit(20):
+                for _ in range(120):
+                    c = ld.choose_random()
+                    picks[c] = picks.get(c, 0) + 1
+        except _Stuck:
+            ctx.violation("choose_random did not return within 20 s for 120 selections among %d candidates after a heavy candidate (%g) was %sd "
+                          "(the acceptance probability of a round must be total/(n*max) of the CURRENT weights)" % (len(ld), heavy_w, how), rep)
+            continue
         except Exception as e:
             ctx.violation("choose_random raised %s after a heavy candidate (%g) was %sd" % (type(e).__name__, heavy_w, how), rep)
             continue
